@@ -16,6 +16,7 @@ ASSUMPTIONS = ["native stack and memory exhaustion cannot be exhibited by the mo
 NOTES = ["proved: parse_terminates (all token lists), parse_no_panic, parse_total, lexer progress/coverage; compiler is structurally recursive (no fuel)"]
 
 DIRECTED = [
+    "print(\"{} van {} klaar\", 3); print(\"{} {} {}\"); print(\"{}\", \"{}\", 1); 1", "stel namen = [1]; namen.lengte", "\"x\".y", "functie f() { 1 } f().g", "1 . 2", "a.b.c", "[1].0", ".", "1..2", "stel a = 1; a . ",
     "99999999999999999999", "1152921504606846976", "1152921504606846975 + 1", "-1152921504606846975 - 2", "1 / 0", "1 % 0", "1.0 / 0.0", "0.0 % 0.0",
     "(0 - 1152921504606846975 - 1) / (0 - 1)", "-(0 - 1152921504606846975 - 1)", "antwoord 1", "stop", "volgende", "functie f() { stop } f()",
     "stel x = x", "stel x = x + 1; x", "\"é\"[1]", "\"é\"[-1]", "\"\"[0]", "[][0]", "[1][1.5]", "[1][\"a\"]", "1[0]", "stel s = \"a\"; s[0] = 1",
